@@ -237,6 +237,14 @@ class Session:
         # pair mode: bytes in flight towards each side, one entry per logical frame
         self.chan = {r: [] for r in self.eps}
         self.last_raw = {}
+        # C21: when the behaviour's meta carries chunk_seed, every receive_data() input is fed in random pieces
+        self.chunk_rng = None
+        if meta.get('chunk_seed') is not None:
+            import random
+            self.chunk_rng = random.Random(meta['chunk_seed'])
+        # C28: digest of every byte the endpoints emitted, in order
+        import hashlib
+        self.digest = hashlib.sha256()
 
     def other(self, x):
         return 's' if x == 'c' else 'c'
@@ -250,6 +258,7 @@ class Session:
         if self.pair:
             self._enqueue(self.other(x), data, frames, ep)
         self.last_raw[x] = (data, ep.obs.raw)
+        self.digest.update(x.encode() + len(data).to_bytes(4, 'big') + data)
         o = {'r': res, 'o': strip_private(self._public(frames)), 'e': evs}
         if with_q:
             o['q'] = ep.queries(self.qsids)
@@ -330,13 +339,30 @@ class Session:
     def _receive(self, x, data):
         ep = self.eps[x]
         try:
-            evs = ep.conn.receive_data(data)
+            evs = []
+            for piece in self._pieces(data):
+                evs += ep.conn.receive_data(piece)
             res = absn.exc_rec(None)
             aevs = absn.events(evs)
         except BaseException as e:
             res = absn.exc_rec(e)
             aevs = []
         return self._finish(x, res, aevs)
+
+    def _pieces(self, data):
+        """The whole input at once, or (chunked replay) a random partition of it: byte by byte, or cut at up to
+        four random offsets (cuts fall inside the preface, frame headers and payloads alike)."""
+        rng = self.chunk_rng
+        if rng is None or len(data) < 2:
+            return [data]
+        if rng.random() < 0.25:
+            return [data[i:i + 1] for i in range(len(data))]
+        cuts = sorted({rng.randrange(1, len(data)) for _ in range(rng.randrange(1, 5))})
+        out, prev = [], 0
+        for c in cuts + [len(data)]:
+            out.append(data[prev:c])
+            prev = c
+        return out
 
 
 def diff(pred, obs, path=''):
@@ -353,5 +379,10 @@ def diff(pred, obs, path=''):
         for k, v in pred['z'].items():
             got = obs['z'].get(k, 'unreadable')
             if got != 'unreadable' and got != v:
-                out.append('z.' + k)
+                if k == 'streams' and isinstance(got, list) and [s.get('sid') for s in got] == [s.get('sid') for s in v]:
+                    # same streams in the table: name the attributes that differ (the lenses of the properties use them)
+                    attrs = sorted({a for sp, so in zip(v, got) for a in sp if sp[a] != so.get(a)})
+                    out.extend('z.streams.' + a for a in attrs)
+                else:
+                    out.append('z.' + k)
     return out
